@@ -264,9 +264,26 @@ class FuncRun(ExprMixin, InstrMixin, CallMixin):
             else:
                 arr = self.heap_get(state, name, T.ARR(T.INT, T.ARR(T.INT, s)))
                 vals.append(T.select(T.select(arr, keys[0]), keys[1]))
+            if (p and p[-1] == '#base') or (not (p and p[-1].startswith('#')) and self.ty.kind(lt) in ('pointer', 'map', 'chan')):
+                self.entry_refs_old(name, len(keys))
         v = self.ty.unflatten(vals, tn)
         self.assume_facts(v, tn)
         return v
+
+    def entry_refs_old(self, name, nkeys):
+        """references held in the heap at entry designate objects that exist at entry: at or below the watermark
+        (the convention asserted for parameters, extended to what they reach) -- so nothing allocated by this run
+        aliases them."""
+        a0 = self.heap0.get(name)
+        if a0 is None or self.mute or ('entryrefs', name) in self.facted:
+            return
+        self.facted.add(('entryrefs', name))
+        k = T.fresh_name('k')
+        if nkeys == 1:
+            self.hyps.append(T.forall([(k, T.INT)], T.le(T.select(a0, T.V(k)), self.ALLOC0)))
+        else:
+            i = T.fresh_name('i')
+            self.hyps.append(T.forall([(k, T.INT), (i, T.INT)], T.le(T.select(T.select(a0, T.V(k)), T.V(i)), self.ALLOC0)))
 
     def store(self, state, ptr, val):
         if isinstance(ptr, PtrV) and ptr.kind == 'cell':
